@@ -261,6 +261,66 @@ def _ctor_name(p):
     return None
 
 
+def merge_guarded_arms(n):
+    """`K(a) if g1 => b1, K(b) if g2 => b2, K(_) => b3`  ==  `K(a) => if g1 {b1} else if g2[a/b] {b2[a/b]} else {b3}`:
+    consecutive arms of one constructor with a single plain binder, all but the last guarded, become one arm (guards
+    are tried in the same order, so nothing about evaluation changes)."""
+    from .inline import _replace_locals
+    arms = n.get("arms", [])
+    if not any(a.get("guard") is not None for a in arms):
+        return None
+
+    def simple(p):
+        if p.get("k") != "ptstruct" or len(p.get("ps", [])) != 1:
+            return None
+        q = p["ps"][0]
+        if q.get("k") == "pwild" or (q.get("k") == "pbind" and q.get("sub") is None):
+            return q
+        return None
+    out, i, changed = [], 0, False
+    while i < len(arms):
+        a = arms[i]
+        nm = _ctor_name(a["pat"])
+        if a.get("guard") is None or nm is None or simple(a["pat"]) is None:
+            out.append(a)
+            i += 1
+            continue
+        j = i
+        while j < len(arms) and arms[j].get("guard") is not None and _ctor_name(arms[j]["pat"]) == nm \
+                and simple(arms[j]["pat"]) is not None:
+            j += 1
+        if j >= len(arms) or arms[j].get("guard") is not None or _ctor_name(arms[j]["pat"]) != nm \
+                or simple(arms[j]["pat"]) is None:
+            return None
+        group = arms[i:j + 1]
+        binders = [simple(g["pat"]) for g in group]
+        lead = next((b for b in binders if b.get("k") == "pbind"), None)
+        if lead is None:
+            return None
+        if any(b.get("k") == "pbind" and b.get("mode") != lead.get("mode") for b in binders):
+            return None
+        loc = {"k": "local", "id": lead["id"], "name": lead.get("name"), "ty": lead.get("ty"), "sp": lead.get("sp")}
+        bodies = []
+        for g, b in zip(group, binders):
+            env = {b["id"]: loc} if b.get("k") == "pbind" and b["id"] != lead["id"] else {}
+            gd = _replace_locals(copy.deepcopy(g.get("guard")), env) if g.get("guard") is not None else None
+            bd = _replace_locals(copy.deepcopy(g["body"]), env)
+            bodies.append((gd, bd))
+        chain = bodies[-1][1]
+        for gd, bd in reversed(bodies[:-1]):
+            chain = {"k": "if", "ty": n.get("ty"), "sp": bd.get("sp") or n.get("sp"), "cond": gd,
+                     "then": bd if bd.get("k") == "block" else _blk(bd, n.get("sp"), n.get("ty")),
+                     "else": chain if chain.get("k") == "block" else _blk(chain, n.get("sp"), n.get("ty")),
+                     "from_guard": True}
+        pat = dict(group[0]["pat"], ps=[lead])
+        out.append(dict(group[0], pat=pat, guard=None, body=chain))
+        changed = True
+        i = j + 1
+    if not changed:
+        return None
+    return dict(n, arms=out, merged_guards=True)
+
+
 def match_guards(n):
     arms = n.get("arms", [])
     if not any(a.get("guard") is not None for a in arms) or len(arms) < 2:
@@ -589,6 +649,201 @@ def entry_match(n):
 
 # ------------------------------------------------------------------ let f = |..| body;  f(..)   (called once)
 
+_FRESH = [0]
+
+
+def _renumber_bound(tree):
+    """give the locals DECLARED inside `tree` fresh ids (captured outer locals keep theirs)"""
+    _FRESH[0] += 1
+    off = 500000000 + _FRESH[0] * 100000
+    bound = set()
+    stack = [tree]
+    nodes = []
+    while stack:
+        x = stack.pop()
+        if isinstance(x, dict):
+            nodes.append(x)
+            if x.get("k") == "pbind" and isinstance(x.get("id"), int):
+                bound.add(x["id"])
+            stack.extend(v for v in x.values() if isinstance(v, (dict, list)))
+        elif isinstance(x, list):
+            stack.extend(x)
+    lids = set(x["lid"] for x in nodes if x.get("k") in ("loop", "for", "while") and isinstance(x.get("lid"), int))
+    for x in nodes:
+        k = x.get("k")
+        if k in ("local", "pbind") and x.get("id") in bound:
+            x["id"] += off
+        if k in ("loop", "for", "while") and x.get("lid") in lids:
+            x["lid"] += off
+        if k in ("break", "continue") and x.get("target") in lids:
+            x["target"] += off
+
+
+def _is_bookkeeping(clo):
+    """closure body = a few plain (compound) assignments, nothing else: shared bookkeeping such as
+    `|len| { total += len; count += 1; }` (copying it to its call sites duplicates no call, loop or branch)"""
+    b = clo.get("body")
+    if not isinstance(b, dict):
+        return False
+    if b.get("k") != "block":
+        b = {"stmts": [], "expr": b}
+    items = list(b.get("stmts", [])) + ([b["expr"]] if b.get("expr") is not None else [])
+    if not items:
+        return False
+    for it in items:
+        x = it["e"] if it.get("k") == "semi" else it
+        if x.get("k") not in ("assign", "assignop"):
+            return False
+        for y in _walk_nodes(x):
+            if y.get("k") in ("call", "mcall", "if", "match", "loop", "for", "while", "closure", "ret", "try"):
+                return False
+    return True
+
+
+def _walk_nodes(x):
+    stack = [x]
+    while stack:
+        y = stack.pop()
+        if isinstance(y, dict):
+            yield y
+            stack.extend(v for v in y.values() if isinstance(v, (dict, list)))
+        elif isinstance(y, list):
+            stack.extend(y)
+
+
+def _all_callee_uses(tree, lid, n_uses):
+    n = 0
+    stack = [tree]
+    while stack:
+        x = stack.pop()
+        if isinstance(x, dict):
+            f = x.get("f")
+            if x.get("k") == "call" and isinstance(f, dict):
+                g = f
+                while isinstance(g, dict) and g.get("k") == "addr":
+                    g = g.get("e")
+                if isinstance(g, dict) and g.get("k") == "local" and g.get("id") == lid:
+                    n += 1
+            stack.extend(v for v in x.values() if isinstance(v, (dict, list)))
+        elif isinstance(x, list):
+            stack.extend(x)
+    return n == n_uses
+
+
+def scalarise_struct_local(blk):
+    """`let mut s = S { a: e1, b: e2 }; .. s.a += x .. ; s`  ==  `let mut s_a = e1; let mut s_b = e2; .. s_a += x ..;
+    S { a: s_a, b: s_b }`: a local struct that is only ever touched field by field and handed out whole once, at the
+    block's tail, is a set of accumulators (scalar replacement of aggregates)."""
+    stmts = blk.get("stmts", [])
+    tail = blk.get("expr")
+    if not (isinstance(tail, dict) and tail.get("k") == "local"):
+        return False
+    for i, st in enumerate(stmts):
+        init = st.get("init") if st.get("k") == "let" else None
+        if not (st.get("k") == "let" and st.get("pat", {}).get("k") == "pbind" and st["pat"].get("id") == tail.get("id")
+                and isinstance(init, dict) and init.get("k") == "struct" and init.get("base") is None and st.get("els") is None):
+            continue
+        lid = st["pat"]["id"]
+        rest = {"stmts": stmts[i + 1:]}
+        uses = _uses_of(rest, lid)
+        # every other use is the base of a field projection
+        fields_ok = []
+        stack = [rest]
+        while stack:
+            x = stack.pop()
+            if isinstance(x, dict):
+                if x.get("k") == "field" and isinstance(x.get("e"), dict) and x["e"].get("k") == "local" and x["e"].get("id") == lid:
+                    fields_ok.append(x)
+                stack.extend(v for v in x.values() if isinstance(v, (dict, list)))
+            elif isinstance(x, list):
+                stack.extend(x)
+        names = [f["name"] for f in init.get("fields", [])]
+        if len(fields_ok) != len(uses) or any(f["name"] not in names for f in fields_ok):
+            return False
+        _FRESH[0] += 1
+        base = 700000000 + _FRESH[0] * 1000
+        ids = {nm: base + j for j, nm in enumerate(names)}
+        lets = []
+        for f in init["fields"]:
+            e = f["e"]
+            lets.append({"k": "let", "sp": st.get("sp"), "init": e,
+                         "pat": {"k": "pbind", "name": "%s.%s" % (st["pat"].get("name"), f["name"]), "id": ids[f["name"]],
+                                 "mode": "BindingMode(No, Mut)", "ty": e.get("ty"), "sp": st.get("sp")}})
+        for x in fields_ok:
+            nm = x["name"]
+            ty = x.get("ty")
+            sp = x.get("sp")
+            x.clear()
+            x.update({"k": "local", "id": ids[nm], "name": "%s.%s" % (st["pat"].get("name"), nm), "ty": ty, "sp": sp})
+        blk["stmts"] = stmts[:i] + lets + stmts[i + 1:]
+        blk["expr"] = dict(init, fields=[dict(f, e={"k": "local", "id": ids[f["name"]], "name": "%s.%s" % (st["pat"].get("name"), f["name"]),
+                                                     "ty": f["e"].get("ty"), "sp": tail.get("sp")}) for f in init["fields"]],
+                           sp=tail.get("sp"), scalarised=True)
+        return True
+    return False
+
+
+def for_ok_else_break(n):
+    """`for x in IT { let Ok(v) = x else { break }; BODY }`  ==  `for v in IT.map_while(Result::ok) { BODY }`
+    (the same for `Some(v)`: map_while(identity) is not spelled, so only Ok is folded)"""
+    if n.get("k") != "for" or n.get("pat", {}).get("k") != "pbind":
+        return None
+    b = n.get("body")
+    if not isinstance(b, dict) or b.get("k") != "block" or b.get("stmts") or not isinstance(b.get("expr"), dict):
+        return None
+    i = b["expr"]
+    c = i.get("cond") if i.get("k") == "if" else None
+    if not (isinstance(c, dict) and c.get("k") == "letexpr" and isinstance(c.get("init"), dict)
+            and c["init"].get("k") == "local" and c["init"].get("id") == n["pat"].get("id")):
+        return None
+    p = c["pat"]
+    if not (p.get("k") == "ptstruct" and p.get("path", "").endswith("::Ok") and len(p.get("ps", [])) == 1
+            and p["ps"][0].get("k") == "pbind"):
+        return None
+    e = i.get("else")
+    es = (e.get("stmts", []) + ([e["expr"]] if e.get("expr") is not None else [])) if isinstance(e, dict) and e.get("k") == "block" else [e]
+    es = [x["e"] if isinstance(x, dict) and x.get("k") == "semi" else x for x in es]
+    if len(es) != 1 or not isinstance(es[0], dict) or es[0].get("k") != "break" or es[0].get("target") != n.get("lid") \
+            or es[0].get("e") is not None:
+        return None
+    if len(_uses_of(i.get("then"), n["pat"]["id"])) != 0:
+        return None
+    sp = n.get("sp")
+    it = {"k": "mcall", "ty": "std::iter::MapWhile<..>", "sp": sp, "name": "map_while", "callee": "std::iter::Iterator::map_while",
+          "recv": n["iter"], "args": [{"k": "def", "ty": "fn", "sp": sp, "dk": "AssocFn", "path": "std::result::Result::<T, E>::ok"}],
+          "from_let_else_break": True}
+    then = i["then"] if i["then"].get("k") == "block" else _blk(i["then"], sp, "()")
+    return dict(n, pat=p["ps"][0], iter=it, body=then)
+
+
+def openoptions_create(n):
+    """`OpenOptions::new().write(true).create(true).truncate(true).open(p)` (flags in any order, nothing else set)
+    is `File::create(p)` spelled out"""
+    if n.get("k") != "mcall" or n.get("callee") != "std::fs::OpenOptions::open" or len(n.get("args", [])) != 1:
+        return None
+    flags = {}
+    r = n.get("recv")
+    while isinstance(r, dict) and r.get("k") in ("addr", "paren"):
+        r = r.get("e")
+    while isinstance(r, dict) and r.get("k") == "mcall" and (r.get("callee") or "").startswith("std::fs::OpenOptions::"):
+        a = r.get("args", [])
+        if len(a) != 1 or a[0].get("k") != "lit" or not isinstance(a[0].get("v"), bool) or r["name"] in flags:
+            return None
+        flags[r["name"]] = a[0]["v"]
+        r = r.get("recv")
+        while isinstance(r, dict) and r.get("k") in ("addr",):
+            r = r.get("e")
+    if not (isinstance(r, dict) and r.get("k") == "call" and r.get("callee") == "std::fs::OpenOptions::new"):
+        return None
+    on = {k for k, v in flags.items() if v}
+    if on != {"write", "create", "truncate"}:
+        return None
+    sp = n.get("sp")
+    return {"k": "call", "ty": n.get("ty"), "sp": sp, "callee": "std::fs::File::create", "cdk": "AssocFn",
+            "f": {"k": "def", "ty": "fn", "sp": sp, "dk": "AssocFn", "path": "std::fs::File::create"},
+            "args": n["args"], "from_openoptions": True}
+
+
 def beta_local_closures(blk):
     """A closure bound to an immutable local and called exactly once is its body at the call (`let next = || reader
     .lock().unwrap().next(); while let Some(r) = next() { .. }`): nothing else can observe the closure value."""
@@ -609,6 +864,23 @@ def beta_local_closures(blk):
                 if new is not None:
                     stmts = stmts[:i] + new["stmts"]
                     blk["expr"] = new["expr"]
+                    changed = True
+                    continue
+            elif len(uses) > 1 and not init.get("move") and _is_bookkeeping(init) and _all_callee_uses(rest, lid, len(uses)):
+                # a by-reference closure called several times: each call is its body (locals it declares get fresh ids)
+                cur_ = rest
+                ok_ = True
+                for _ in range(len(uses)):
+                    c_ = copy.deepcopy(init)
+                    _renumber_bound(c_)
+                    nxt_ = _beta(cur_, lid, c_)
+                    if nxt_ is None:
+                        ok_ = False
+                        break
+                    cur_ = nxt_
+                if ok_ and not _uses_of(cur_, lid):
+                    stmts = stmts[:i] + cur_["stmts"]
+                    blk["expr"] = cur_["expr"]
                     changed = True
                     continue
         i += 1
